@@ -7,18 +7,20 @@ def units(tier, seed):
     q = tier == 'quick'
     shapes = ['b', 'k', 'kb', 'bb', 'bk', 'kbb'] + ([] if q else ['kkb', 'bbb', 'kkbb'])
     lens = [0, 1, 2] if q else [0, 1, 2, 3]
-    names = ['a', 'textbf', 'section', 'label', 'cap', 'in']
+    names = ['a', 'textbf', 'section', 'label', 'cap', 'in', 'item']
     bi = seed
     for ci in range(6):
         for kinds in shapes:
             for seplens in itertools.product(lens, repeat=len(kinds)):
                 if sum(seplens) > (3 if q else 4) or sum(1 for x in seplens if x) > 2:
                     continue
-                for tail in ['', ' t'] if q else ['', ' t', '{u}']:
+                for tail in ['', ' t', ' \\w', '\n\n$x$'] if q else ['', ' t', '{u}', ' \\w', '\n\n$x$', ' %c\n']:
                     bi += 1
                     if q and bi % 2:
                         continue
                     name = names[bi % len(names)]
+                    if name == 'item' and ci != 2:
+                        name = 'a'
                     if name in ('textbf', 'label', 'section'):
                         # side condition of C08/C16: the mandatory argument is brace-delimited (and attaches:
                         # at most one blank character before it)
@@ -40,7 +42,7 @@ def units(tier, seed):
                     if q and (pad != (0, 0) and seplens not in [(0, 0), (1, 1)]):
                         continue
                     out.append(dict(hfile='blanks.py', fname='blanks_env', args=(ci, en, pad, seplens, body), max_paths=100000))
-    for ti in range(27):
+    for ti in range(31):
         for n1, n2 in ([(1, 1), (2, 0)] if q else [(1, 1), (2, 0), (0, 2), (2, 1), (1, 2)]):
             out.append(dict(hfile='blanks.py', fname='template', args=(ti, n1, n2)))
     return out
@@ -49,5 +51,5 @@ def units(tier, seed):
 BOUNDS = ('commands with 1..3 (quick) / 1..4 bracket+brace groups in every order of kinds, every separator a run of 0..2 (0..3) '
           'blanks over {space, tab, LF, CR} (a blank line included), 6 contexts, plain and fixed-signature names; '
           'environments with blank-padded names and blanks before their arguments (plain, verbatim-like, math, list names); '
-          '27 malformed-but-parseable templates (brackets without partner, groups/brackets after \\end{..}, stray closers, '
+          '31 malformed-but-parseable templates (brackets without partner, groups/brackets after \\end{..}, stray closers, '
           'blank lines before groups, twin arguments) with symbolic text holes')
